@@ -220,6 +220,38 @@ def check_c11(tier, seed):
                         open(kpath, "w").write(v1)
                         clean()
                         gen(tg)
+            # renamed declarations: the previous output declares an injector under a name the user's sources now use for
+            # something else (an injector renamed, its old name reused for a provider function / a function of another
+            # signature declared in a file that sorts before or after the output)
+            if tg is targets[0]:
+                for variant, userfile in (("after", "types.go"), ("before", "a_types.go")):
+                    rd = os.path.join(M.root, "rn_" + variant)
+                    shutil.rmtree(rd, ignore_errors=True)
+                    os.makedirs(rd)
+                    inj = "package rn\n\nimport \"github.com/mazrean/kessoku\"\n\nvar _ = kessoku.Inject[*App](\"%s\", kessoku.Provide(NewConfig), kessoku.Provide(%s))\n"
+                    typ = "package rn\n\ntype Config struct{}\n\ntype App struct{ C *Config }\n\nfunc NewConfig() *Config { return &Config{} }\n\nfunc %s(c *Config) *App { return &App{C: c} }\n"
+                    rel = os.path.join("rn_" + variant, "inject.go")
+                    band = os.path.join(rd, "inject_band.go")
+                    open(os.path.join(rd, "inject.go"), "w").write(inj % ("NewApp", "newApp"))
+                    open(os.path.join(rd, userfile), "w").write(typ % "newApp")
+                    C.run([cli, rel], cwd=M.root, extra_env=dict(env), timeout=600)
+                    v1b = open(band).read() if os.path.exists(band) else None
+                    open(os.path.join(rd, "inject.go"), "w").write(inj % ("InitApp", "NewApp"))
+                    open(os.path.join(rd, userfile), "w").write(typ % "NewApp")
+                    rc_s, out_s = C.run([cli, rel], cwd=M.root, extra_env=dict(env), timeout=600)
+                    stale = open(band).read() if os.path.exists(band) else None
+                    os.remove(band) if os.path.exists(band) else None
+                    rc_f, out_f = C.run([cli, rel], cwd=M.root, extra_env=dict(env), timeout=600)
+                    fresh_b = open(band).read() if os.path.exists(band) else None
+                    runs_extra = 3
+                    if v1b is None or fresh_b is None:
+                        R.violation("harness error: the rename probe does not generate (%s)" % (out_f or "")[-200:], {"kind": "correspondence-broken", "correspondence": "rename probe"})
+                    elif stale != fresh_b:
+                        R.finding("nondeterministic:renamed-declaration", "after renaming an injector and reusing its name for a provider (declared in a file sorting %s the output), regenerating over the previous output gives a different inject_band.go than a clean directory (exit %d)" % (variant, rc_s),
+                                  {"kind": "input", "failing_input": {"inject.go v1": inj % ("NewApp", "newApp"), userfile + " v1": typ % "newApp", "inject.go v2": inj % ("InitApp", "NewApp"), userfile + " v2": typ % "NewApp"},
+                                   "history": ["generate from v1", "rename (v2)", "generate again over the previous output", "compare with a clean generation from v2"],
+                                   "with_previous_output": stale, "clean": fresh_b})
+                    shutil.rmtree(rd, ignore_errors=True)
             # leftover output of the previous run
             clean(); gen(tg); gen(tg)
             compare("leftover: second run with the previous output present", ["fresh run", "run again without deleting *_band.go"])
